@@ -141,16 +141,21 @@ theorem BInv.release {b h : Nat} {s : ASem} (hi : BInv b (h + 1) s) :
   have := (release_inv s).1
   simp only [BInv] at *; omega
 
-/-! ### JobServerSemaphore, non-recursive -/
+/-! ### JobServerSemaphore (both modes) -/
 
-/-- invariant of the NON-recursive job server semaphore with `n` tokens in total -/
+/-- the implicit slot of the parent `make` is in use -/
+def imp (s : St) : Nat := if s.recursive && decide (0 < s.acquired) then 1 else 0
+
+/-- invariant of the job server semaphore; `n` = tokens that circulate (pipe, `__tokens`, child makes).
+`__acquired` counts the owners including those a slot was handed over to and who have not continued yet. -/
 def SemInv (n : Nat) (s : St) : Prop :=
-  s.recursive = false ∧ s.pipe + s.tokens + s.envHeld = n ∧
-  s.tokens = s.acquired + inflight s.sem.waiters ∧
-  s.waitersCnt = notDone s.sem.waiters ∧ s.sem.value = 0 ∧ (s.reader = true ↔ 0 < s.waitersCnt)
+  s.pipe + s.tokens + s.envHeld = n ∧
+  s.tokens + imp s = s.acquired ∧
+  s.waitersCnt = notDone s.sem.waiters ∧ s.sem.value = 0 ∧ (s.reader = true ↔ 0 < s.waitersCnt) ∧
+  (s.recursive = true → 0 < s.waitersCnt → 0 < s.acquired)
 
-theorem SemInv.init (n : Nat) : SemInv n (St.init false n) := by
-  simp [SemInv, St.init]
+theorem SemInv.init (r : Bool) (n : Nat) : SemInv n (St.init r n) := by
+  simp [SemInv, St.init, imp]
 
 theorem sem_acquire_blocked (s : ASem) (t : Nat) (h : s.value = 0) :
     s.acquire t = ({ s with waiters := s.waiters ++ [(t, false)] }, .blocked) := by
@@ -161,35 +166,59 @@ theorem SemInv.acquire {n : Nat} {s : St} (t : Nat) (h : SemInv n s) :
     ((s.acquire t).2 = .got → (s.acquire t).1.acquired = s.acquired + 1 ∧ (s.acquire t).1.sem.waiters = s.sem.waiters) ∧
     ((s.acquire t).2 = .blocked → (s.acquire t).1.acquired = s.acquired ∧
       (s.acquire t).1.sem.waiters = s.sem.waiters ++ [(t, false)]) := by
-  obtain ⟨hr, h1, h2, h3, h4, h5⟩ := h
+  obtain ⟨h1, h2, h3, h4, h5, h6⟩ := h
   unfold St.acquire
-  have e0 : (s.recursive && s.acquired == 0) = false := by simp [hr]
-  simp only [e0, Bool.false_eq_true, ↓reduceIte]
-  by_cases hp : s.pipe > 0
-  · simp only [hp, ↓reduceIte]
-    refine ⟨⟨hr, ?_, ?_, h3, h4, h5⟩, ?_, ?_⟩ <;> simp <;> omega
-  · simp only [hp, ↓reduceIte, sem_acquire_blocked _ t h4]
-    refine ⟨⟨hr, h1, ?_, ?_, h4, ?_⟩, ?_, ?_⟩
-    · simp [inflight_append]; exact h2
-    · simp [notDone_append]; exact h3
-    · simp; by_cases hz : s.waitersCnt = 0 <;> simp [hz]
-      have := h5.2 (by omega); exact this
-    · simp
-    · simp
+  by_cases e0 : (s.recursive && s.acquired == 0) = true
+  · simp only [e0, ↓reduceIte]
+    have hr : s.recursive = true := by simp at e0; exact e0.1
+    have ha : s.acquired = 0 := by simp at e0; exact e0.2
+    have ht : s.tokens = 0 := by simp [imp, ha] at h2; exact h2
+    refine ⟨⟨h1, ?_, h3, h4, h5, ?_⟩, ?_, ?_⟩
+    · simp [imp, hr, ht]
+    · intro _ _; simp
+    · intro _; simp [ha]
+    · intro hc; simp at hc
+  · have e0' : (s.recursive && s.acquired == 0) = false := by simpa using e0
+    simp only [e0', Bool.false_eq_true, ↓reduceIte]
+    by_cases hp : s.pipe > 0
+    · simp only [hp, ↓reduceIte]
+      refine ⟨⟨by simp only; omega, ?_, h3, h4, h5, ?_⟩, ?_, ?_⟩
+      · simp only [imp] at *
+        cases hr : s.recursive <;> simp [hr] at e0' h2 ⊢
+        · omega
+        · have : 0 < s.acquired := by omega
+          simp [this] at h2; omega
+      · intro _ _; simp
+      · intro _; simp
+      · intro hc; simp at hc
+    · simp only [hp, ↓reduceIte, sem_acquire_blocked _ t h4]
+      refine ⟨⟨h1, ?_, ?_, h4, ?_, ?_⟩, ?_, ?_⟩
+      · simpa [imp] using h2
+      · simp [notDone_append]; exact h3
+      · simp; by_cases hz : s.waitersCnt = 0 <;> simp [hz]
+        have := h5.2 (by omega); exact this
+      · intro hr _
+        have hr' : s.recursive = true := hr
+        simp only
+        cases ha : s.acquired with
+        | zero => simp [hr', ha] at e0'
+        | succ k => omega
+      · intro hc; simp at hc
+      · intro _; simp
 
 theorem SemInv.resume {n : Nat} {s : St} (t : Nat) (h : SemInv n s) (hw : s.woken t = true) :
-    SemInv n (s.resume t) ∧ (s.resume t).acquired = s.acquired + 1 ∧
-    (s.resume t).sem.waiters.length + 1 = s.sem.waiters.length := by
-  obtain ⟨hr, h1, h2, h3, h4, h5⟩ := h
+    SemInv n (s.resume t) ∧ (s.resume t).acquired = s.acquired ∧
+    (s.resume t).sem.waiters.length + 1 = s.sem.waiters.length ∧
+    inflight (s.resume t).sem.waiters + 1 = inflight s.sem.waiters := by
+  obtain ⟨h1, h2, h3, h4, h5, h6⟩ := h
   obtain ⟨e1, e2, e3⟩ := erase_done s.sem.waiters t hw
   have hres : s.sem.resume t = { s.sem with waiters := s.sem.waiters.erase (t, true) } := by
     unfold ASem.resume
     exact wakeLoop_zero _ _ h4
   unfold St.resume
   rw [hres]
-  refine ⟨⟨hr, h1, ?_, ?_, h4, h5⟩, rfl, e3⟩
-  · simp only; omega
-  · simp only; omega
+  refine ⟨⟨h1, h2, ?_, h4, h5, h6⟩, rfl, e3, e1⟩
+  simp only; omega
 
 theorem sem_release_handover (s : ASem) (hv : s.value = 0) (hn : 0 < notDone s.waiters) :
     s.release.value = 0 ∧ inflight s.release.waiters = inflight s.waiters + 1 ∧
@@ -197,25 +226,48 @@ theorem sem_release_handover (s : ASem) (hv : s.value = 0) (hn : 0 < notDone s.w
   obtain ⟨w', e, h1, h2, h3⟩ := wakeFirst_some _ hn
   simp [ASem.release, ASem.wakeNext, e, hv, h1, h3]; omega
 
+/-- `release` by an owner: never raises; the number of owners that are not in flight drops by one -/
 theorem SemInv.release {n : Nat} {s : St} (h : SemInv n s) (ha : 0 < s.acquired) :
-    ∃ s', s.release = .ok s' ∧ SemInv n s' ∧ s'.acquired + 1 = s.acquired ∧
+    ∃ s', s.release = .ok s' ∧ SemInv n s' ∧
+      s'.acquired + inflight s.sem.waiters + 1 = s.acquired + inflight s'.sem.waiters ∧
       s'.sem.waiters.length = s.sem.waiters.length := by
-  obtain ⟨hr, h1, h2, h3, h4, h5⟩ := h
+  obtain ⟨h1, h2, h3, h4, h5, h6⟩ := h
   unfold St.release
   have ha' : (s.acquired == 0) = false := by simp; omega
   simp only [ha', Bool.false_eq_true, ↓reduceIte]
   by_cases hw : s.waitersCnt = 0
   · have hne : (s.waitersCnt != 0) = false := by simp [hw]
-    have e1 : (!s.recursive || decide (s.acquired > 1)) = true := by simp [hr]
-    simp only [hne, Bool.false_eq_true, ↓reduceIte, e1]
-    have ht : (s.tokens == 0) = false := by simp; omega
-    simp only [ht, Bool.false_eq_true, ↓reduceIte]
-    refine ⟨_, rfl, ⟨hr, ?_, ?_, h3, h4, h5⟩, ?_, rfl⟩ <;> simp only <;> omega
+    simp only [hne, Bool.false_eq_true, ↓reduceIte]
+    by_cases e1 : (!s.recursive || decide (s.acquired > 1)) = true
+    · simp only [e1, ↓reduceIte]
+      have ht : s.tokens ≠ 0 := by
+        simp only [imp] at h2
+        cases hr : s.recursive <;> simp [hr] at e1 h2
+        · omega
+        · have : 0 < s.acquired := by omega
+          simp [this] at h2; omega
+      have ht' : (s.tokens == 0) = false := by simpa using ht
+      simp only [ht', Bool.false_eq_true, ↓reduceIte]
+      refine ⟨_, rfl, ⟨by simp only; omega, ?_, h3, h4, h5, ?_⟩, by simp only; omega, rfl⟩
+      · simp only [imp] at *
+        cases hr : s.recursive <;> simp [hr] at e1 h2 ⊢
+        · omega
+        · have p1 : 0 < s.acquired := by omega
+          have p2 : 0 < s.acquired - 1 := by omega
+          simp [p1] at h2; simp [p2]; omega
+      · intro _ hc; simp only at hc; omega
+    · have e1' : (!s.recursive || decide (s.acquired > 1)) = false := by simpa using e1
+      simp only [e1', Bool.false_eq_true, ↓reduceIte]
+      have hr : s.recursive = true := by simp at e1'; exact e1'.1
+      have h1a : s.acquired = 1 := by simp at e1'; omega
+      refine ⟨_, rfl, ⟨h1, ?_, h3, h4, h5, ?_⟩, by simp only; omega, rfl⟩
+      · simp [imp, hr, h1a] at h2 ⊢; exact h2
+      · intro _ hc; simp only at hc; omega
   · have hne : (s.waitersCnt != 0) = true := by simp [hw]
     simp only [hne, ↓reduceIte]
     obtain ⟨r1, r2, r3, r4⟩ := sem_release_handover s.sem h4 (by omega)
-    refine ⟨_, rfl, ⟨hr, h1, ?_, ?_, r1, ?_⟩, ?_, r4⟩
-    · simp only; omega
+    refine ⟨_, rfl, ⟨h1, ?_, ?_, r1, ?_, ?_⟩, ?_, r4⟩
+    · simpa [imp] using h2
     · simp only; omega
     · simp only
       by_cases hz : s.waitersCnt - 1 = 0
@@ -225,6 +277,7 @@ theorem SemInv.release {n : Nat} {s : St} (h : SemInv n s) (ha : 0 < s.acquired)
         constructor
         · intro _; omega
         · intro _; exact h5.2 (by omega)
+    · intro _ _; simp only; exact ha
     · simp only; omega
 
 /-- release without a slot raises (any mode) -/
@@ -232,54 +285,65 @@ theorem release_zero (s : St) (h : s.acquired = 0) : s.release = .error .valueEr
   simp [St.release, h]
 
 def CbPre (n : Nat) (s : St) : Prop :=
-  s.recursive = false ∧ s.pipe + s.tokens + s.envHeld = n ∧ s.tokens = s.acquired + inflight s.sem.waiters ∧
-    s.waitersCnt = notDone s.sem.waiters ∧ s.sem.value = 0
+  s.pipe + s.tokens + s.envHeld = n ∧ s.tokens + imp s = s.acquired ∧
+    s.waitersCnt = notDone s.sem.waiters ∧ s.sem.value = 0 ∧ (s.recursive = true → 0 < s.waitersCnt → 0 < s.acquired)
 
 theorem cbLoop_inv {n : Nat} (fuel : Nat) (s : St) (h : CbPre n s) :
     CbPre n (cbLoop fuel s) ∧
-    (cbLoop fuel s).acquired = s.acquired ∧ (cbLoop fuel s).sem.waiters.length = s.sem.waiters.length ∧
+    (cbLoop fuel s).acquired + inflight s.sem.waiters = s.acquired + inflight (cbLoop fuel s).sem.waiters ∧
+    (cbLoop fuel s).sem.waiters.length = s.sem.waiters.length ∧
     (cbLoop fuel s).reader = s.reader ∧ (cbLoop fuel s).waitersCnt ≤ s.waitersCnt ∧
     (0 < fuel → 0 < s.waitersCnt → 0 < s.pipe → (cbLoop fuel s).waitersCnt < s.waitersCnt) := by
   induction fuel generalizing s with
   | zero => exact ⟨h, rfl, rfl, rfl, Nat.le_refl _, fun h0 => absurd h0 (by omega)⟩
   | succ f ih =>
-    obtain ⟨hr, h1, h2, h3, h4⟩ := h
+    obtain ⟨h1, h2, h3, h4, h6⟩ := h
     unfold cbLoop
     by_cases hw : s.waitersCnt = 0
     · have hw' : (s.waitersCnt == 0) = true := by simpa using hw
       simp only [hw', ↓reduceIte]
-      exact ⟨⟨hr, h1, h2, h3, h4⟩, by trivial, by trivial, by trivial, by first | trivial | omega, by intros; omega⟩
+      exact ⟨⟨h1, h2, h3, h4, h6⟩, by trivial, by trivial, by trivial, by first | trivial | omega, by intros; omega⟩
     · have hw' : (s.waitersCnt == 0) = false := by simpa using hw
       simp only [hw', Bool.false_eq_true, ↓reduceIte]
       by_cases hp : s.pipe = 0
       · have hp' : (s.pipe == 0) = true := by simpa using hp
         simp only [hp', ↓reduceIte]
-        exact ⟨⟨hr, h1, h2, h3, h4⟩, by trivial, by trivial, by trivial, by first | trivial | omega, by intros; omega⟩
+        exact ⟨⟨h1, h2, h3, h4, h6⟩, by trivial, by trivial, by trivial, by first | trivial | omega, by intros; omega⟩
       · have hp' : (s.pipe == 0) = false := by simpa using hp
         simp only [hp', Bool.false_eq_true, ↓reduceIte]
         obtain ⟨r1, r2, r3, r4⟩ := sem_release_handover s.sem h4 (by omega)
-        have := ih { s with pipe := s.pipe - 1, tokens := s.tokens + 1, waitersCnt := s.waitersCnt - 1, sem := s.sem.release }
-          ⟨hr, by simp only; omega, by simp only; omega, by simp only; omega, r1⟩
+        have himp : s.tokens + 1 + (if (s.recursive && decide (0 < s.acquired + 1)) = true then 1 else 0) = s.acquired + 1 := by
+          simp only [imp] at h2
+          cases hr : s.recursive <;> simp [hr] at h2 h6 ⊢
+          · omega
+          · have : 0 < s.acquired := h6 (by omega)
+            simp [this] at h2; omega
+        have := ih { s with pipe := s.pipe - 1, tokens := s.tokens + 1, waitersCnt := s.waitersCnt - 1, acquired := s.acquired + 1, sem := s.sem.release }
+          ⟨by simp only; omega, by simpa only [imp] using himp, by simp only; omega, r1, by intro _ _; simp only; omega⟩
         obtain ⟨i1, i2, i3, i4, i5, _⟩ := this
         simp only at i2 i3 i4 i5
-        refine ⟨i1, i2, by omega, i4, by omega, ?_⟩
+        refine ⟨i1, by omega, by omega, i4, by omega, ?_⟩
         intro _ _ _; omega
 
 theorem SemInv.callback {n : Nat} {s : St} (h : SemInv n s) :
-    SemInv n s.callback ∧ s.callback.acquired = s.acquired ∧ s.callback.sem.waiters.length = s.sem.waiters.length := by
-  obtain ⟨hr, h1, h2, h3, h4, h5⟩ := h
-  have := cbLoop_inv (n := n) s.waitersCnt s ⟨hr, h1, h2, h3, h4⟩
-  obtain ⟨⟨c1, c2, c3, c4, c5⟩, a1, a2, a3, a4, _⟩ := this
+    SemInv n s.callback ∧
+    s.callback.acquired + inflight s.sem.waiters = s.acquired + inflight s.callback.sem.waiters ∧
+    s.callback.sem.waiters.length = s.sem.waiters.length := by
+  obtain ⟨h1, h2, h3, h4, h5, h6⟩ := h
+  have := cbLoop_inv (n := n) s.waitersCnt s ⟨h1, h2, h3, h4, h6⟩
+  obtain ⟨⟨c1, c2, c3, c4, c6⟩, a1, a2, a3, a4, _⟩ := this
   unfold St.callback
   simp only
   by_cases hz : (cbLoop s.waitersCnt s).waitersCnt = 0
   · have : ((cbLoop s.waitersCnt s).waitersCnt == 0) = true := by simpa using hz
     simp only [this, ↓reduceIte]
-    refine ⟨⟨c1, c2, c3, c4, c5, ?_⟩, a1, a2⟩
-    simp [hz]
+    refine ⟨⟨c1, ?_, c3, c4, ?_, ?_⟩, a1, a2⟩
+    · simpa [imp] using c2
+    · simp [hz]
+    · intro _ hc; simp only at hc; omega
   · have : ((cbLoop s.waitersCnt s).waitersCnt == 0) = false := by simpa using hz
     simp only [this, Bool.false_eq_true, ↓reduceIte]
-    refine ⟨⟨c1, c2, c3, c4, c5, ?_⟩, a1, a2⟩
+    refine ⟨⟨c1, c2, c3, c4, ?_, c6⟩, a1, a2⟩
     rw [a3]
     constructor
     · intro _; omega
@@ -288,8 +352,8 @@ theorem SemInv.callback {n : Nat} {s : St} (h : SemInv n s) :
 /-- the callback serves waiters as long as tokens are in the pipe -/
 theorem SemInv.callback_serves {n : Nat} {s : St} (h : SemInv n s) (hw : 0 < s.waitersCnt) (hp : 0 < s.pipe) :
     s.callback.waitersCnt < s.waitersCnt := by
-  obtain ⟨hr, h1, h2, h3, h4, h5⟩ := h
-  have := cbLoop_inv (n := n) s.waitersCnt s ⟨hr, h1, h2, h3, h4⟩
+  obtain ⟨h1, h2, h3, h4, h5, h6⟩ := h
+  have := cbLoop_inv (n := n) s.waitersCnt s ⟨h1, h2, h3, h4, h6⟩
   obtain ⟨_, _, _, _, _, a5⟩ := this
   have := a5 hw hw hp
   unfold St.callback
@@ -298,69 +362,38 @@ theorem SemInv.callback_serves {n : Nat} {s : St} (h : SemInv n s) (hw : 0 < s.w
 
 theorem SemInv.envTake {n : Nat} {s s' : St} (h : SemInv n s) (e : s.envTake = some s') :
     SemInv n s' ∧ s'.acquired = s.acquired ∧ s'.sem.waiters = s.sem.waiters := by
-  obtain ⟨hr, h1, h2, h3, h4, h5⟩ := h
+  obtain ⟨h1, h2, h3, h4, h5, h6⟩ := h
   unfold St.envTake at e
   split at e
   · cases e
-    exact ⟨⟨hr, by simp only; omega, h2, h3, h4, h5⟩, rfl, rfl⟩
+    exact ⟨⟨by simp only; omega, by simpa [imp] using h2, h3, h4, h5, h6⟩, rfl, rfl⟩
   · cases e
 
 theorem SemInv.envReturn {n : Nat} {s s' : St} (h : SemInv n s) (e : s.envReturn = some s') :
     SemInv n s' ∧ s'.acquired = s.acquired ∧ s'.sem.waiters = s.sem.waiters := by
-  obtain ⟨hr, h1, h2, h3, h4, h5⟩ := h
+  obtain ⟨h1, h2, h3, h4, h5, h6⟩ := h
   unfold St.envReturn at e
   split at e
   · cases e
-    exact ⟨⟨hr, by simp only; omega, h2, h3, h4, h5⟩, rfl, rfl⟩
+    exact ⟨⟨by simp only; omega, by simpa [imp] using h2, h3, h4, h5, h6⟩, rfl, rfl⟩
   · cases e
 
-theorem SemInv.acquired_le {n : Nat} {s : St} (h : SemInv n s) : s.acquired + inflight s.sem.waiters ≤ n := by
-  obtain ⟨_, h1, h2, _⟩ := h; omega
+/-- at most `n` owners, plus the implicit slot in recursive mode -/
+theorem SemInv.acquired_le {n : Nat} {s : St} (h : SemInv n s) :
+    s.acquired ≤ n + (if s.recursive then 1 else 0) := by
+  obtain ⟨h1, h2, _⟩ := h
+  simp only [imp] at h2
+  cases hr : s.recursive <;> simp [hr] at h2 ⊢
+  · omega
+  · by_cases hp : 0 < s.acquired
+    · simp [hp] at h2; omega
+    · omega
 
 /-- safety form of "no lost wake-up": a waiter that has not been served implies that the reader
 callback of the pipe is registered (so a token arriving in the pipe is noticed) -/
 theorem SemInv.no_lost_wakeup {n : Nat} {s : St} (h : SemInv n s) (hw : 0 < notDone s.sem.waiters) :
     s.reader = true := by
-  obtain ⟨_, _, _, h3, _, h5⟩ := h
+  obtain ⟨_, _, h3, _, h5, _⟩ := h
   exact h5.2 (by omega)
-
-/-! ### the recursive mode (Bob under an external `make` job server) as the code is
-
-`__acquired` does not count a slot that was handed over to a waiter that has not continued yet, but
-`acquire` tests `__acquired == 0` and `release` tests `__acquired > 1`. -/
-
-def ok! (r : Except RelErr St) (d : St) : St := match r with | .ok s => s | .error _ => d
-
-/-- `make -j2`: one token.  X owns the implicit slot, Y the token, W waits; Y and X release before W
-continues: the token stays in `__tokens` for ever (pipe empty, nobody owns a slot). -/
-def leakRun : St :=
-  let s0 := St.init true 1
-  let s1 := (s0.acquire 0).1          -- X: implicit slot
-  let s2 := (s1.acquire 1).1          -- Y: token
-  let s3 := (s2.acquire 2).1          -- W: blocks
-  let s4 := ok! s3.release s3         -- Y releases: hand-over to W
-  let s5 := ok! s4.release s4         -- X releases: "implicit slot", nothing written back
-  let s6 := s5.resume 2               -- W continues
-  ok! s6.release s6                   -- W releases: "implicit slot" again
-
-theorem recursive_leak :
-    leakRun.acquired = 0 ∧ leakRun.tokens = 1 ∧ leakRun.pipe = 0 ∧ leakRun.sem.waiters = [] ∧ leakRun.envHeld = 0 := by
-  decide
-
-/-- the pipe is empty (tokens in use by sibling jobs of make).  A owns the implicit slot, W waits, A hands
-its slot over to W; before W continues C acquires and gets the implicit slot a second time: two owners of
-one slot, and `release` raises IndexError (`self.__tokens.pop()` on an empty list). -/
-def doubleRun : St × Acq :=
-  let s0 := St.init true 0
-  let s1 := (s0.acquire 0).1          -- A: implicit slot
-  let s2 := (s1.acquire 1).1          -- W: blocks
-  let s3 := ok! s2.release s2         -- A releases: hand-over to W
-  let (s4, a) := s3.acquire 2         -- C: acquires
-  (s4.resume 1, a)                    -- W continues
-
-theorem recursive_double_grant :
-    doubleRun.2 = .got ∧ doubleRun.1.acquired = 2 ∧ doubleRun.1.tokens = 0 ∧ doubleRun.1.pipe = 0 ∧
-    (match doubleRun.1.release with | .error .indexError => true | _ => false) = true := by
-  decide
 
 end JobSem
